@@ -16,6 +16,8 @@ def lemmas(tier):
             out.append(xh.Lemma("d_%s" % c.id, [("s", "str")], ["return R.conv_accepts(%r, s)[0] == False" % c.id], pre=["len(s) <= %d" % sl, "s != %r" % c.detail["ok"]], meta=dict(meta, edit="literal replaced")))
         elif c.kind == "enum_str" and c.direct and not c.detail["open"]:
             out.append(xh.Lemma("c_%s" % c.id, [("s", "str")], ["return R.conv_accepts(%r, s)[0] == False" % c.id], pre=["len(s) <= %d" % sl, "s not in %r" % (tuple(c.detail["values"]),)], meta=dict(meta, edit="closed enum value outside")))
+            n = len(leafrt.near(c.id))
+            out.append(xh.Lemma("cn_%s" % c.id, [("k", "int")], ["return R.field_rejects_near(%r, k)" % c.id], pre=["0 <= k < %d" % n], meta=dict(meta, edit="closed enum value replaced by a near miss of a declared value", near=True)))
         elif c.kind == "enum_int" and c.direct and not c.detail["open"]:
             out.append(xh.Lemma("c_%s" % c.id, [("x", "int")], ["return R.conv_accepts(%r, x)[0] == False" % c.id], pre=["x not in %r" % (tuple(c.detail["values"]),)], meta=dict(meta, edit="closed enum value outside")))
     return out
@@ -48,6 +50,8 @@ def check(tier):
         elif r.verdict == "refuted":
             c = fc[l.meta["case"]]
             v = r.args.get("x", r.args.get("s"))
+            if l.meta.get("near"):
+                v = leafrt.near(c.id)[r.args["k"]]
             code = leafrt.field_replay_code(c, v, expect_accept=False)
             ok, detail = leafrt.run_code(code)
             if not ok:
